@@ -1030,3 +1030,28 @@ func c19revokeClearsBits(c *an.Ctx) {
 		r.Fail(f.Name+": revoke without store", c.P.Pos(nilRets.List[0].Node.Pos()), "executeRevokeStatement reports success on a path that never calls SetPrivilege")
 	}
 }
+
+func init() {
+	old := All["C19"].Run
+	All["C19"].Run = func(c *an.Ctx) {
+		old(c)
+		c19privilegeIsABitSet(c)
+	}
+	All["C19"].Rules += " R13"
+	addLevel("C19", "UserInfo.AuthorizeDatabase grants exactly: admin, rw-user, a request for no privilege, or a stored privilege that IS the requested one or ALL (privileges are a bit set, not ordered levels).")
+}
+
+// c19privilegeIsABitSet — C19.R13.  READ = 1, WRITE = 2, ALL = 3 are bits, not levels: a user who
+// holds WRITE on a database may not read it.  The database authorisation predicate is
+// admin ∨ rwuser ∨ requested == none ∨ (entry present ∧ (held == requested ∨ held == ALL)).
+func c19privilegeIsABitSet(c *an.Ctx) {
+	const M = "lib/util/lifted/influx/meta"
+	r := c.Rule("C19.R13", "K-PREDSHAPE", M+":(*UserInfo).AuthorizeDatabase — granted iff admin, rw-user, nothing requested, or the stored privilege equals the requested one or ALL")
+	f := fn(r, M+":UserInfo.AuthorizeDatabase")
+	if f == nil {
+		return
+	}
+	r.AddSites(1)
+	f.PredShape(r, 0, "`recv.Admin` | `recv.Rwuser` | `influxql.NoPrivileges==p0` | (`recv.Privileges[p1]#1` & (`p0==recv.Privileges[p1]#0` | `influxql.AllPrivileges==recv.Privileges[p1]#0`))",
+		"privileges are compared for identity (or ALL), never by order")
+}
